@@ -73,6 +73,11 @@ pub fn cbor_map_family() -> Vec<Ty> {
     kv(Occ::One, name("tstr"), false, name("any")),
     kv(Occ::Star, name("any"), false, name("int")),
     Entry { occ: Occ::One, kind: EK::Val(Some(Key::Bare("a".into())), ty1(name("int"))) },
+    // literal-key members with a nullable repetition (their absence must not relax what follows) and a second required key
+    Entry { occ: Occ::Star, kind: EK::Val(Some(Key::Bare("a".into())), ty1(name("int"))) },
+    Entry { occ: Occ::Range(None, Some(1)), kind: EK::Val(Some(Key::Arrow(t1(text("b")), false)), ty1(name("tstr"))) },
+    Entry { occ: Occ::Range(Some(0), Some(2)), kind: EK::Val(Some(Key::Bare("c".into())), ty1(name("any"))) },
+    Entry { occ: Occ::One, kind: EK::Val(Some(Key::Bare("b".into())), ty1(name("tstr"))) },
   ];
   let mut out = vec![];
   for a in &ms {
@@ -360,7 +365,7 @@ pub fn run(tier: Tier) -> i32 {
   run.rule = format!(
     "Part 1: state = (schema, CBOR data item). Schemas: every type term of weight <= {w} over the C01 core alphabet extended by bstr/bytes, byte-string literals, \
      #0..#7, #7.20/22/23/32, #, undefined, unsigned, integer, integer literals and ranges at the 2^63 / 2^64 boundaries, non-text map keys (1 =>, int =>, bstr =>, uint ^ =>) and \
-     tags #6(t) #6.1(t) #6.2(t) #6.99(t); plus the C01 map family and a CBOR map family (every map of 2-3 members over 11 members keyed by uint / int / tstr / bstr / any types, integer literals and cuts). Items are delivered by the crate's own decoder (preferred encoding -> decode_cbor), so decoding is inside the checked path. Items: the JSON universe plus byte strings, simple values incl. undefined, non-finite and width-boundary floats, \
+     tags #6(t) #6.1(t) #6.2(t) #6.99(t); plus the C01 map family and a CBOR map family (every map of 2-3 members over 15 members keyed by uint / int / tstr / bstr / any types, integer literals and cuts). Items are delivered by the crate's own decoder (preferred encoding -> decode_cbor), so decoding is inside the checked path. Items: the JSON universe plus byte strings, simple values incl. undefined, non-finite and width-boundary floats, \
      integers at every head-width boundary up to 2^64-1 / -2^64, tags 0/1/2/3/99, maps with non-text, duplicate and equivalent keys ({} items). Every state is judged by the reference \
      matcher R and replayed on the real CBORValidator. Recursion family: 7 self-referential schemas (through a tag, an array, a map value, a choice, as first rule or behind an alias) x every nesting of tag 9 / tag 10 / array / map to depth 3 (4) over 4 leaves, judged by hand-written recursive predicates. Part 2: for every item, every encoding with <= 2 deviations from preferred serialization (non-minimal heads, indefinite \
      lengths, chunked strings, wider floats) is validated through validate_cbor_from_slice against 50 schemas and must get the verdict of the preferred encoding. \
